@@ -28,6 +28,7 @@ package memfs
 import (
 	"io/fs"
 	"os"
+	"strings"
 	"time"
 
 	"github.com/avfs/avfs"
@@ -803,6 +804,11 @@ func (vfs *MemFS) Rename(oldpath, newpath string) error {
 		return nil
 	}
 
+	if nChild == oChild {
+		// oldpath and newpath are hard links to the same file: nothing to do.
+		return nil
+	}
+
 	switch oChild.(type) {
 	case *dirNode:
 		if !vfs.isNotExist(nErr) {
@@ -813,13 +819,20 @@ func (vfs *MemFS) Rename(oldpath, newpath string) error {
 			return &os.LinkError{Op: op, Old: oldpath, New: newpath, Err: nErr}
 		}
 
-	case *fileNode:
+		if strings.HasPrefix(nPI.Path(), oPI.Path()+string(vfs.PathSeparator())) {
+			// a directory can't be moved below itself.
+			return &os.LinkError{Op: op, Old: oldpath, New: newpath, Err: vfs.err.InvalidArgument}
+		}
+
+	case *fileNode, *symlinkNode:
 		if nChild == nil {
 			break
 		}
 
 		switch nc := nChild.(type) {
 		case *fileNode:
+			nc.delete()
+		case *symlinkNode:
 			nc.delete()
 		default:
 			err := error(avfs.ErrFileExists)
